@@ -257,7 +257,24 @@ sys.exit(0)
 INLINE_REPLAY = "import runpy, sys\nsys.argv = ['c18_inline']\nrunpy.run_path('/verif/replay_lib/c18_inline.py', run_name='__main__')\n"
 
 
+NN_NATIVE = '''
+# the nn / builder scenarios of contracts/c18_nn_tree.py are native: they run the REAL classes; re-run them and print what fails
+import sys
+sys.path.insert(0, "/verif")
+from contracts import c18_nn_tree as T
+bad = 0
+for fn in (T.s_nn_tree, T.s_builder_graph_io, T.s_nn_histories):
+    for name, ob in fn(None)["obligations"].items():
+        if ob["status"] != "proved":
+            print(name, "-", str(ob.get("detail"))[:300]); bad += 1
+sys.exit(1 if bad else 0)
+'''
+
+
 def replay(ob):
+    if ob["name"].startswith(("C18.nn.tree.", "C18.nn.module_list.a_slice", "C18.nn.module_list.getitem", "C18.nn.load_state_dict.", "C18.nn.subgraph.modules_called", "C18.builder.input.",
+                              "C18.builder.initializer.registered", "C18.builder.subgraph.", "C18.builder.add_output.", "C18.builder.names_are_unique_across")):
+        return NN_NATIVE
     if ob["name"].startswith("C01.calling."):
         from props import C01
         return C01.KEYWORD_INPUT
